@@ -116,11 +116,12 @@ PROPS["C13"] = dict(
                "(counts_vs_truth_table: TT.sat / TT.unsat / TT.deps of a truth table representing the diagram's function). Memoised = naive wherever documented is C12's theorem. "
                "Tie to the code: every issued handle of generated operation sequences is queried on the real Bdd (paths naive+memo, models naive+memo, depth, dependencies, impacts, cubes) and "
                "compared with the model's answers and with the truth-table specification.",
-    level_note="Trusted: Lean kernel + standard axioms (Counts.lean imports Mathlib.Tactic.Ring for arithmetic); usize modelled as Nat (depth <= 63 in the tie); TT.depth / TT.paths (canonical-diagram "
+    level_note="Trusted: Lean kernel + standard axioms (Counts.lean imports Mathlib.Tactic.Ring for arithmetic); usize modelled as Nat: exact in the code up to 64 levels (checked by the deep-diagrams job), beyond that the KNOWN FINDING D13 (counts do not fit a machine word); TT.depth / TT.paths (canonical-diagram "
                "measures computed from the function) are executable specification without a linking theorem; correspondence is differential over generated sequences (<= 7 variables).",
     technique="Lean 4 proof (induction on the diagram, Shannon counting, path enumeration) + correspondence check against model and truth-table specification",
     jobs=[Job("bdd", 1000, 6000, size=6, size_thorough=7, fsets=("default", "none", "all"), fsets_thorough=ALL12,
               relevant=heads("q", "cubes", "cubecheck", "impact"), nontrivial=nt_bdd),
+          Job("bdd", 40, 600, size=64, extra=("deepcount",), fsets=("default", "none"), relevant=heads("qdeep"), nontrivial=lambda st: True, label="deep-diagrams"),
           Job("persist", 400, 10000, size=5, size_thorough=6, relevant=heads("pq", "pmemocheck"),
               nontrivial=lambda st: int(st.get("trips", 0)) >= 1 and int(st.get("nodes", 0)) >= 3, label="after-import")],
     rule="operation sequences as for C06; for EVERY issued handle: paths/models (naive and memoised), depth, dependencies, more_models; path cubes for random (goal, goal variable); "
@@ -264,7 +265,8 @@ PROPS["C09"] = dict(
     jobs=[Job("adf", 40, 1000, size=48, extra=("large",), relevant=heads("build", "adopt", "adump", "wfcheck"),
               nontrivial=lambda st: int(st.get("n", 0)) >= 20 and int(st.get("nodes", 0)) >= 50, label="adf-large"),
           Job("adf", 800, 30000, size=6, size_thorough=7, extra=("sem",), relevant=heads("build", "adopt", "adump", "wfcheck"), nontrivial=nt_adf, label="adf-small"),
-          Job("adf", 150, 5000, size=6, extra=("present",), relevant=heads("presented"), nontrivial=nt_adf, label="adf-orders")],
+          Job("adf", 150, 5000, size=6, extra=("present",), relevant=heads("presented"), nontrivial=nt_adf, label="adf-orders"),
+          Job("adf", 6, 60, size=2, extra=("deep",), needs_bins=True, relevant=heads("clideep"), nontrivial=lambda st: int(st.get("deep", 0)) >= 50, label="deep-nesting", timeout=600)],
     rule="large ADFs (24-48 statements, formula depth 5-11, diagrams up to thousands of nodes): native build handle-exact vs model, bridged and pre-grounded stores validated by wfCheck + isoCheck; "
          "small ADFs additionally by truth table; permuted fact orders x {none, lx, an} sorting: condition handles per statement vs the model under the same order; "
          "non-trivial = distinct ADF (large: >= 20 statements and >= 50 nodes)",
@@ -322,7 +324,8 @@ PROPS["C08"] = dict(
                "that the Rust parser never panics is observed (catch_unwind), not proved.",
     technique="Lean 4 proof (completeness by induction on the grammar, soundness by induction on fuel, scanners as necessary conditions) + correspondence check",
     jobs=[Job("parser", 5000, 200000, size=6, size_thorough=8, relevant=heads("parse", "parsecheck"), nontrivial=nt_parser),
-          Job("parser", 1500, 100000, size=6, extra=("fuzz",), label="parser-fuzz", relevant=heads("parse"), nontrivial=nt_parser)],
+          Job("parser", 1500, 100000, size=6, extra=("fuzz",), label="parser-fuzz", relevant=heads("parse"), nontrivial=nt_parser),
+          Job("adf", 6, 60, size=2, extra=("deep",), needs_bins=True, relevant=heads("clideep"), nontrivial=lambda st: int(st.get("deep", 0)) >= 50, label="deep-nesting", timeout=600)],
     rule="valid stream: pretty-printed random ASTs (9 constructors, depth <= 4, 1-6 statements, duplicate/missing/undeclared s and ac) x random layouts x label classes "
          "(alphanumeric, keyword-like, numeric, quoted incl. empty/brackets/blanks/non-ASCII) x fact orders; malformed stream: 17 kinds of definitely-invalid mutations; fuzz: 1-2 random "
          "character edits. Compared: accept/reject, namelist, whole dict, conditions with labels, formula_order, per-statement truth table of Adf::from_parser. "
@@ -346,7 +349,7 @@ PROPS["C15"] = dict(
                "--lib biodivine and the default --lib hybrid (biodivine rejects the variable name); the model's fixed search fuel (10^6) is a hypothesis of cli_faithful.",
     technique="Lean 4 proof (composition of the semantics theorems over the CLI's wiring; ordering of sections) + correspondence of the real binary with the model and, section by section, with the specification",
     jobs=[Job("adf", 120, 2500, size=5, size_thorough=6, extra=("cli",), timeout=900, needs_bins=True,
-              relevant=heads("cli", "clirun", "clicheck", "clibad", "cliexport", "cliq", "clicount"), nontrivial=lambda st: int(st.get("n", 0)) >= 2)],
+              relevant=heads("cli", "clirun", "clicheck", "clibad", "cliexport", "cliq", "clicount", "clideep"), nontrivial=lambda st: int(st.get("n", 0)) >= 2)],
     rule=ADF_GEN + "per ADF six invocations of the real binary (4 single-flag, 2 random flag sets; random mode, sorting, heuristic, fact permutation, label class, layout), one malformed file "
          "(missing terminator / trailing garbage / unbalanced bracket / wrong arity / unknown connective / leading blank), every 10th ADF an export-twice-then-import run; "
          "non-trivial = distinct ADF with >= 2 statements",
